@@ -5,6 +5,7 @@ from collections import Counter
 
 from . import common as C
 from . import proggen as G
+from . import scripted as S
 
 HELP = ("[b] break       show breakpoints\n[b] break NUM   set/unset breakpoint on NUM\nexit            Exit debugger\n"
         "[h] help        Print this\n[n] next        goto next command\n[s] state       print state status\n"
@@ -16,9 +17,11 @@ def gen_program(rng):
     r = rng.random()
     if r < 0.15:
         return G.count_loop(rng.choice([2, 3, 4]))
-    if r < 0.25:
+    if r < 0.5:
+        return S.scripted(rng, with_read=False)
+    if r < 0.58:
         return "형" + "." * 65 + " 항. 혀어어어어어어엉" + "." * 6912 + " 항. 형.. 항."
-    if r < 0.35:
+    if r < 0.68:
         return G.render([c for c in G.gen_program(rng, rng.choice([2, 4, 6])) if not (c[0] == 5 and c[2] == 0)] or [(0, 1, 1, [[None]])]) + " 흑. 항"
     cmds = [c for c in G.gen_program(rng, rng.choice([1, 2, 3, 5, 8, 10])) if not (c[0] == 5 and c[2] == 0)]
     return G.render(cmds or [(0, 1, 1, [[None]])])
